@@ -676,9 +676,11 @@ Definition C12_round (c : ccfg) (parent : json) (key : string) (evs : list ev) (
       if existsb hard_failure evs && negb (qhas qs "AddRateLimited" key) then Some "failure-swallowed-without-requeue" else
       (* before the hook the parent is read for one reason only - to re-check that it may still adopt or be
          finalized: a read that fails (gone included) ends the sync with an error; the hook is not reached *)
-      if existsb (fun e => match is_api e with
-                           | Some q => targets_parent c parent q && verb_eqb (q_verb q) VGet && negb (accepted e)
-                           | None => false end) (before_hook evs) &&
+      if match rev (filter (fun e => match is_api e with
+                                     | Some q => targets_parent c parent q && verb_eqb (q_verb q) VGet
+                                     | None => false end) (before_hook evs)) with
+         | last :: _ => negb (accepted last)    (* a read that was retried with success is no failure *)
+         | [] => false end &&
          negb (match hook_events evs with [] => true | _ => false end) && negb (qhas qs "AddRateLimited" key)
       then Some "failed-parent-read-swallowed-without-requeue" else
       (* after the hook only the documented races are benign, each at its own call site: any other
